@@ -170,8 +170,49 @@ def run(chk):
         rng = [e for e, p in g if any(isinstance(x, ast.Compare) and any(isinstance(o, (ast.Lt, ast.LtE, ast.Gt, ast.GtE)) for o in x.ops)
                                        and vparam in [y.id for y in ast.walk(x) if isinstance(y, ast.Name)] for x in ast.walk(e))]
         if rng:
-            chk.unk("R4", f"{OD}:ODVariable.encode_raw | range pre-check `{src(rng[0])[:50]}`", f.loc(rs),
-                    "a range test of the value raises before the packer is asked: it must accept exactly the type's values (for REAL types also +-inf and NaN); not decidable here")
+            # decided for the integer types by evaluating the conditions in force at the raise for both ends of every type's range
+            # (len(self) and self.data_type bound per type); a legal value that reaches the raise is refused
+            import copy as _copy
+
+            class _Bind(ast.NodeTransformer):
+                def __init__(self, code, bits, val):
+                    self.code, self.bits, self.val = code, bits, val
+
+                def visit_Call(self, node):
+                    if src(node) == "len(self)":
+                        return ast.Constant(value=self.bits)
+                    return self.generic_visit(node)
+
+                def visit_Attribute(self, node):
+                    if src(node) == "self.data_type":
+                        return ast.Constant(value=self.code)
+                    return self.generic_visit(node)
+
+                def visit_Name(self, node):
+                    if node.id == vparam and isinstance(node.ctx, ast.Load):
+                        return ast.Constant(value=self.val)
+                    return node
+            from .common import conj_of_facts
+            refused, undecided = None, None
+            for tname, (tcode_, kind_, bits_, signed_) in sorted(O.DATA_TYPES.items(), key=lambda kv: kv[1][0]):
+                if kind_ != "int":
+                    continue
+                lo, hi = (-(1 << (bits_ - 1)), (1 << (bits_ - 1)) - 1) if signed_ else (0, (1 << bits_) - 1)
+                for v in (lo, hi, 0):
+                    e = _Bind(tcode_, bits_, v).visit(_copy.deepcopy(conj_of_facts(g)))
+                    ast.fix_missing_locations(e)
+                    r = folder.try_fold(e, Scope(f.mod, f.cls), "?")
+                    if r == "?":
+                        undecided = undecided or f"{tname}, value {v}"
+                    elif r:
+                        refused = refused or f"{tname}: the legal value {v} ({'minimum' if v == lo else 'maximum' if v == hi else 'zero'} of the type) reaches `{src(rs)[:50]}`"
+            if refused:
+                chk.bad("R4", f"{OD}:ODVariable.encode_raw | range pre-check `{src(rng[0])[:50]}`", f.loc(rs), f"{refused}: the pre-check refuses a value the packer encodes")
+            elif undecided:
+                chk.unk("R4", f"{OD}:ODVariable.encode_raw | range pre-check `{src(rng[0])[:50]}`", f.loc(rs),
+                        f"a range test of the value raises before the packer is asked and could not be evaluated ({undecided}): it must accept exactly the type's values")
+            else:
+                chk.ok("R4", f"{OD}:ODVariable.encode_raw | range pre-check `{src(rng[0])[:50]}`", f.loc(rs), "accepts both ends of every integer type's range")
 
     # ---------------------------------------------------------------- R5 __len__
     f = repo.func(OD, "ODVariable.__len__", "C04.R5")
